@@ -54,6 +54,7 @@ type Registration struct {
 	Entry    *ssa.Function // ProcessBuiltinFunction of the registered type
 	Env      *Env          // the function containing the Add, in its calling context below the factory method
 	Chain    []callLevel   // the calls leading from the factory method down to the Add (the Add itself last)
+	Table    bool          // registered by a loop over a literal table of (name, creator) pairs
 }
 
 // FactoryFunc: the method of the factory type that builds the container (role: the function from which the most Add
@@ -147,6 +148,13 @@ func (p *Prog) Registrations() []Registration {
 					}
 					continue
 				}
+				if _, isConst := c.Common().Args[0].(*ssa.Const); !isConst {
+					// table-driven registration: Add(entry.name, entry.create()) in a loop over a literal table
+					if rs := p.tableRegistrations(e, c, append(append([]callLevel{}, above...), callLevel{e, c})); len(rs) > 0 {
+						out = append(out, rs...)
+						continue
+					}
+				}
 				r := Registration{Add: c, Env: e, Chain: append(append([]callLevel{}, above...), callLevel{e, c})}
 				if k, ok := c.Common().Args[0].(*ssa.Const); ok && k.Value != nil && k.Value.Kind() == constant.String {
 					r.Key = constant.StringVal(k.Value)
@@ -175,6 +183,176 @@ func (p *Prog) Registrations() []Registration {
 	collect(p.Env(fn), nil, 0)
 	sort.Slice(out, func(i, j int) bool { return out[i].Key < out[j].Key })
 	regCache = out
+	return out
+}
+
+// tableRegistrations resolves `for _, x := range table { f, err := x.create(); …; Add(x.name, f) }` where table is a slice
+// literal (built in place or returned by a helper) whose elements pair a constant name with a function literal that
+// returns the result of a constructor call. One Registration per element; Table marks them for the spine rule.
+func (p *Prog) tableRegistrations(e *Env, add ssa.CallInstruction, chain []callLevel) []Registration {
+	// the element the key is read from: a load of field `name` of *elemPtr, elemPtr = &table[i]
+	keyLoad, ok := add.Common().Args[0].(*ssa.UnOp)
+	if !ok {
+		return nil
+	}
+	nameFA, ok := keyLoad.X.(*ssa.FieldAddr)
+	if !ok {
+		return nil
+	}
+	var tbl ssa.Value
+	switch ep := nameFA.X.(type) {
+	case *ssa.IndexAddr:
+		tbl = ep.X
+	case *ssa.Alloc:
+		// `for _, x := range table`: x is a copy of table[i] stored into a local
+		if ep.Referrers() != nil {
+			for _, r := range *ep.Referrers() {
+				if st, ok := r.(*ssa.Store); ok && st.Addr == ssa.Value(ep) {
+					if ld, ok := st.Val.(*ssa.UnOp); ok {
+						if ia, ok := ld.X.(*ssa.IndexAddr); ok {
+							tbl = ia.X
+						}
+					}
+				}
+			}
+		}
+	}
+	if tbl == nil {
+		return nil
+	}
+	// resolve the table to its literal: through parameters and helper results
+	te := e
+	var lit *ssa.Alloc
+	for d := 0; d < 6 && lit == nil; d++ {
+		switch x := tbl.(type) {
+		case *ssa.Parameter:
+			a, pe := te.actual(x)
+			if a == nil {
+				return nil
+			}
+			tbl, te = a, pe
+		case *ssa.Call:
+			sc := x.Call.StaticCallee()
+			if sc == nil || len(sc.Blocks) == 0 {
+				return nil
+			}
+			rets := returnsOf(sc)
+			if len(rets) != 1 || len(rets[0].Results) != 1 {
+				return nil
+			}
+			te = te.Sub(x, sc)
+			tbl = rets[0].Results[0]
+		case *ssa.Slice:
+			al, ok := x.X.(*ssa.Alloc)
+			if !ok {
+				return nil
+			}
+			lit = al
+		default:
+			return nil
+		}
+	}
+	if lit == nil || lit.Referrers() == nil {
+		return nil
+	}
+	at, ok := lit.Type().(*types.Pointer).Elem().Underlying().(*types.Array)
+	if !ok {
+		return nil
+	}
+	names := map[int64]string{}
+	creators := map[int64]ssa.Value{}
+	for _, r := range *lit.Referrers() {
+		ia, ok := r.(*ssa.IndexAddr)
+		if !ok || ia.Referrers() == nil {
+			continue
+		}
+		i, ok := constInt(ia.Index)
+		if !ok {
+			return nil // an element filled at a computed index: not a literal table
+		}
+		for _, r2 := range *ia.Referrers() {
+			fa, ok := r2.(*ssa.FieldAddr)
+			if !ok || fa.Referrers() == nil {
+				continue
+			}
+			for _, r3 := range *fa.Referrers() {
+				st, ok := r3.(*ssa.Store)
+				if !ok || st.Addr != ssa.Value(fa) {
+					continue
+				}
+				if k, ok := st.Val.(*ssa.Const); ok && k.Value != nil && k.Value.Kind() == constant.String && fa.Field == nameFA.Field {
+					names[i] = constant.StringVal(k.Value)
+				} else if _, isFn := st.Val.Type().Underlying().(*types.Signature); isFn {
+					creators[i] = st.Val
+				}
+			}
+		}
+	}
+	if int64(len(names)) != at.Len() || int64(len(creators)) != at.Len() {
+		return nil
+	}
+	var out []Registration
+	for i := int64(0); i < at.Len(); i++ {
+		r := Registration{Add: add, Key: names[i], Chain: chain, Table: true, Env: e}
+		var ce *Env
+		var cf *ssa.Function
+		switch cv := creators[i].(type) {
+		case *ssa.MakeClosure:
+			ce = te.SubClosure(cv)
+			cf, _ = cv.Fn.(*ssa.Function)
+		case *ssa.Function:
+			cf = cv
+			ce = &Env{P: p, Fn: cv, Parent: te, depth: te.depth + 1, ctx: te.ctx + "/" + cv.Name()}
+		}
+		if cf != nil && ce != nil {
+			r.Env = ce
+			// the constructor call whose result the literal returns
+			for _, ret := range returnsOf(cf) {
+				if len(ret.Results) == 0 {
+					continue
+				}
+				v := retval(ret, 0)
+				for d := 0; d < 3; d++ {
+					switch y := v.(type) {
+					case *ssa.MakeInterface:
+						v = y.X
+					case *ssa.ChangeInterface:
+						v = y.X
+					}
+				}
+				// `x, err = NewX(…); return x, err` with x a captured variable: look at the value stored
+				if ld, ok := v.(*ssa.UnOp); ok {
+					if fv, ok := ld.X.(*ssa.FreeVar); ok && fv.Referrers() != nil {
+						for _, r2 := range *fv.Referrers() {
+							if st, ok := r2.(*ssa.Store); ok && st.Addr == ssa.Value(fv) {
+								v = st.Val
+							}
+						}
+					}
+				}
+				if call := traceCtor(v); call != nil && call.Call.StaticCallee() != nil {
+					r.CtorCall = call
+					r.Ctor = call.Call.StaticCallee()
+				}
+			}
+			if r.CtorCall != nil {
+				for _, a := range r.CtorCall.Call.Args {
+					r.ArgTerms = append(r.ArgTerms, ce.Term(a))
+					if bv, ok := boolConst(a); ok {
+						r.Flags = append(r.Flags, bv)
+					}
+				}
+				if r.Ctor.Signature.Results().Len() > 0 {
+					r.Type = r.Ctor.Signature.Results().At(0).Type()
+					ms := p.SSA.MethodSets.MethodSet(r.Type)
+					if sel := ms.Lookup(nil, "ProcessBuiltinFunction"); sel != nil {
+						r.Entry = unwrapSynthetic(p.SSA.MethodValue(sel))
+					}
+				}
+			}
+		}
+		out = append(out, r)
+	}
 	return out
 }
 
